@@ -160,20 +160,24 @@ def run_property(prop, tier='quick', explain=None, quiet=False, write=True):
             try:
                 r.func(ctx)
             except AnchorMissing as e:
-                errors.append(f'{r.id}: anchor missing: {e}')
+                if getattr(e, 'violation', None):
+                    ctx.bad(e.violation, None, f'{e} - a construct the property depends on is missing')
+                    obligations.extend(ctx.out)
+                    per_rule[r.id] = {'instances': len(ctx.out), 'min_instances': r.min_instances, 'doc': ' '.join(r.doc.split())[:400]}
+                    functions |= ctx.functions
+                else:
+                    errors.append(f'{r.id}: anchor missing: {e}')
                 continue
             n = sum(1 for o in ctx.out if o.status != INFO)
             per_rule[r.id] = {'instances': n, 'min_instances': r.min_instances,
                               'doc': ' '.join(r.doc.split())[:400]}
-            if n < r.min_instances:
+            if n < r.min_instances and not any(o.status == VIOLATED for o in ctx.out):
                 errors.append(f'{r.id}: only {n} instances found, at least {r.min_instances} were confirmed by hand '
                               f'(the rule no longer matches its anchors)')
             obligations.extend(ctx.out)
             functions |= ctx.functions
-        if errors:
-            for e in errors:
-                p(f'ANALYSIS-ERROR {e}')
-            return 2
+        for e in errors:
+            p(f'ANALYSIS-ERROR {e}')
         known = load_known()
         known_keys = {k['key']: k for k in known.get('findings', []) if k.get('property') == prop}
         viol = [o for o in obligations if o.status == VIOLATED]
@@ -197,6 +201,8 @@ def run_property(prop, tier='quick', explain=None, quiet=False, write=True):
         for o in known_hit:
             p(f'KNOWN-FINDING: property={prop} {o.key} :: {known_keys[o.key].get("what", o.why)}')
         vdir = os.path.join(VERIF, 'evidence', 'violations')
+        if os.environ.get('VERIF_NO_EVIDENCE'):
+            vdir = os.path.join(os.environ.get('TMPDIR') or '/tmp', 'verif-selftest-violations')
         for o in new_viol:
             os.makedirs(vdir, exist_ok=True)
             safe = ''.join(ch if ch.isalnum() or ch in '._-' else '_' for ch in o.key)[:150]
@@ -219,7 +225,7 @@ def run_property(prop, tier='quick', explain=None, quiet=False, write=True):
             if not hits:
                 p(f'EXPLAIN {want}: construct no longer present')
         wall = time.time() - t0
-        if write:
+        if write and not os.environ.get('VERIF_NO_EVIDENCE') and not errors:
             info = PROP_INFO.get(prop, {})
             samples = []
             for st in (VIOLATED, DISCHARGED, UNDECIDED):
@@ -258,7 +264,9 @@ def run_property(prop, tier='quick', explain=None, quiet=False, write=True):
             os.makedirs(os.path.join(VERIF, 'evidence'), exist_ok=True)
             with open(os.path.join(VERIF, 'evidence', f'{prop}.json'), 'w', encoding='utf-8') as f:
                 json.dump(ev, f, indent=1)
-        return 1 if new_viol else 0
+        if new_viol:
+            return 1
+        return 2 if errors else 0
     except Exception:  # never let a traceback look like a violation
         p('ANALYSIS-ERROR ' + traceback.format_exc().replace('\n', ' | '))
         return 2
